@@ -686,8 +686,18 @@ class StrAI:
                     return (_join(parts[:-1], sep), AStr.lit(sep), parts[-1])
                 if m == "join" and recv.is_lit() and args and isinstance(args[0], (list, tuple)) and all(isinstance(x, AStr) for x in args[0]):
                     return _join(list(args[0]), recv.text())
-                if m in ("strip", "upper", "lower") and recv.is_lit():
+                if m in ("strip", "upper", "lower") and recv.is_lit() and not args:
                     return AStr.lit(getattr(recv.text(), m)())
+                if m in ("upper", "lower", "casefold") and not args:
+                    # case mapping acts on the literal pieces; digit groups are unchanged
+                    return AStr(tuple(("lit", getattr(sg[1], m)()) if sg[0] == "lit" else sg for sg in recv.norm().segs)).norm()
+                if m in ("strip", "lstrip", "rstrip") and not args:
+                    segs = list(recv.norm().segs)
+                    if segs and segs[0][0] == "lit" and m in ("strip", "lstrip"):
+                        segs[0] = ("lit", segs[0][1].lstrip())
+                    if segs and segs[-1][0] == "lit" and m in ("strip", "rstrip"):
+                        segs[-1] = ("lit", segs[-1][1].rstrip())
+                    return AStr(tuple(sg for sg in segs if not (sg[0] == "lit" and sg[1] == ""))).norm()
                 if m == "rstrip" and args and isinstance(args[0], AStr) and args[0].is_lit():
                     chars = args[0].text()
                     segs = list(recv.norm().segs)
